@@ -46,11 +46,12 @@ Fixpoint afind (a : list (N * N)) (x : N) : option N :=
 Definition alookup (a : list (N * N)) (x : N) : N :=
   match afind a x with Some y => y | None => x end.
 
-(* every function from xs into ys, as association lists *)
+(* every INJECTIVE function from xs into ys, as association lists (a value
+   chosen for one key is withdrawn from the candidates of the remaining keys) *)
 Fixpoint assigns (xs ys : list N) : list (list (N * N)) :=
   match xs with
   | [] => [[]]
-  | x :: r => flat_map (fun a => map (fun y => (x, y) :: a) ys) (assigns r ys)
+  | x :: r => flat_map (fun y => map (fun a => (x, y) :: a) (assigns r (srem N.eqb y ys))) ys
   end.
 
 Fixpoint anyb {X : Type} (f : X -> bool) (l : list X) : bool :=
